@@ -100,6 +100,8 @@ class Canon(ast.NodeTransformer):
         if self.cls and recv and not node.args and not node.keywords \
                 and self.depth > 0 and not self.prog.is_prop(self.cls, f.attr):
             r = self.prog.simple_return(self.cls, f.attr)
+            if r is None:
+                r = self.prog.predicate_expr(self.cls, f.attr)      # `if A: return True; return B` is the predicate `A or B`
             if r is not None:
                 return self._inline(r, recv)
         return node
@@ -198,6 +200,12 @@ class GuardEval:
             return res
         if isinstance(node, ast.Constant):
             return bool(node.value)
+        if isinstance(node, ast.IfExp):
+            t = self._ev(node.test)
+            if t is None:
+                a, b = self._ev(node.body), self._ev(node.orelse)
+                return a if a is b else None
+            return self._ev(node.body if t else node.orelse)
         key = ('bool', unparse(node))
         if key in self.env:
             return self.env[key]
